@@ -266,6 +266,33 @@ func (e *Exec) intrinsic(fn *ssa.Function, args []Value) (ret Value, ok bool) {
 			return smt.False, true
 		}
 		return strEq(&Str{B: a.B[:len(b.B)]}, b), true
+	case "sort.Slice", "sort.SliceStable":
+		ifc, ok := args[0].(*Iface)
+		if !ok {
+			e.unsupported("sort.Slice of %T", args[0])
+		}
+		sl, ok := ifc.V.(*Slice)
+		if !ok || sl.Buf != nil {
+			e.unsupported("sort.Slice of non-slice")
+		}
+		less := args[1].(*Closure)
+		// insertion sort, exactly as the std library does for fewer than 12 elements
+		if sl.Len > 12 {
+			e.unsupported("sort.Slice of more than 12 elements")
+		}
+		for i := 1; i < sl.Len; i++ {
+			for j := i; j > 0; j-- {
+				r := e.callClosure(less, []Value{smt.BVC(64, uint64(j)), smt.BVC(64, uint64(j-1))}).(*smt.Term)
+				if !e.forkBool(r) {
+					break
+				}
+				a, b := sl.Back[sl.Off+j], sl.Back[sl.Off+j-1]
+				va, vb := e.load(a), e.load(b)
+				e.store(a, vb)
+				e.store(b, va)
+			}
+		}
+		return nil, true
 	// ---- sync ----------------------------------------------------------------------------
 	case "(*sync.Mutex).Lock", "(*sync.RWMutex).Lock", "(*sync.RWMutex).RLock":
 		e.lockOp(args[0], true, name)
@@ -372,6 +399,7 @@ func (e *Exec) lockOp(recv Value, lock bool, name string) {
 // ufCall replaces a call by an uninterpreted function of its scalar and byte-slice arguments.
 func (e *Exec) ufCall(fn *ssa.Function, args []Value) Value {
 	var ts []*smt.Term
+	var logArgs [][]*smt.Term
 	shape := ""
 	for _, a := range args {
 		switch x := a.(type) {
@@ -380,7 +408,26 @@ func (e *Exec) ufCall(fn *ssa.Function, args []Value) Value {
 			shape += "s"
 		case *Slice, *Str:
 			bs := e.sliceTerms(x)
+			logArgs = append(logArgs, bs)
 			shape += fmt.Sprintf("b%d", len(bs))
+			if len(bs) > 0 {
+				ts = append(ts, concatBytes(bs))
+			}
+		case *Pointer:
+			// pointer to a byte array
+			if x.C == nil || x.C.Sub == nil {
+				e.unsupported("UF call %s with pointer argument", fn.Name())
+			}
+			var bs []*smt.Term
+			for _, c := range x.C.Sub {
+				t, ok := e.load(c).(*smt.Term)
+				if !ok {
+					e.unsupported("UF call %s: pointer to non-byte array", fn.Name())
+				}
+				bs = append(bs, t)
+			}
+			logArgs = append(logArgs, bs)
+			shape += fmt.Sprintf("p%d", len(bs))
 			if len(bs) > 0 {
 				ts = append(ts, concatBytes(bs))
 			}
@@ -397,5 +444,9 @@ func (e *Exec) ufCall(fn *ssa.Function, args []Value) Value {
 		e.ufSeen = map[string]bool{}
 	}
 	e.ufSeen[name] = true
-	return smt.App(name, sortOf(res.At(0).Type()), ts...)
+	app := smt.App(name, sortOf(res.At(0).Type()), ts...)
+	if len(e.ufLog) < 64 {
+		e.ufLog = append(e.ufLog, ufLogEntry{name: fn.String(), args: logArgs, res: app})
+	}
+	return app
 }
